@@ -271,6 +271,43 @@ pub fn check(ctx: &Ctx) -> i32 {
         eprintln!("{}", f.summary);
         report.violations.push(write_replay(ctx, "mutation", &bytes, &f));
     }
+    // coverage-guided campaign (thorough only)
+    if ctx.tier == Tier::Thorough && report.violations.is_empty() {
+        let mut seeds: Vec<Vec<u8>> = vec![];
+        for b in buffers(ctx.seed, 518, 300, 60, 2000) {
+            seeds.push(mutated_input(ctx, &b).0.into_bytes());
+        }
+        if let Ok(rd) = std::fs::read_dir("/repo/examples") {
+            for d in rd.flatten() {
+                if let Ok(rd2) = std::fs::read_dir(d.path()) {
+                    for f in rd2.flatten() {
+                        if let Ok(b) = std::fs::read(f.path()) {
+                            seeds.push(b);
+                        }
+                    }
+                }
+            }
+        }
+        match crate::fuzzrun::campaign(ctx, "compile", &seeds, 400_000, 1200) {
+            Err(e) => report.infra_errors.push(e),
+            Ok(c) => {
+                ev.extra.insert("libfuzzer_executed_units".into(), json!(c.executed));
+                ev.evaluations += c.executed;
+                for a in &c.artifacts {
+                    let text = String::from_utf8_lossy(a).into_owned();
+                    let r = run_text(&text, "fuzz-artifact");
+                    if let CaseResult::Fail(fl) = &r {
+                        if report.violations.is_empty() {
+                            eprintln!("libFuzzer artifact: {}", fl.summary);
+                            report.violations.push(write_replay_with(ctx, "text", &[], fl, json!({"source": text})));
+                        }
+                    } else {
+                        report.infra_errors.push("libFuzzer reported a crash that the harness oracle does not reproduce (see scratch artifacts)".into());
+                    }
+                }
+            }
+        }
+    }
     // saved fuzzer findings / corpus (regression tier)
     let corpus = ctx.root.join("fuzz").join("regressions");
     if let Ok(rd) = std::fs::read_dir(&corpus) {
